@@ -99,6 +99,8 @@ package stream
 // NEW one down; the requester gets exactly one answer.
 //verif:func (*ProcessorNode).applyPendingSwap(n, ctx)
 //verif:monitor swapMu guards pending
+//verif:let p = loaded("pending")
+//verif:let old = old(n.Processor)
 //verif:store[consume-request] pending requires newval == nil
 //verif:store[switch-only-after-open] Processor requires succeeded("Processor.Open") && newval == p.newProcessor && p != nil
 //verif:call[open-the-staged-processor] Processor.Open requires recv == p.newProcessor && p != nil
